@@ -405,7 +405,9 @@ pub fn run(a: &Args) -> i32 {
             // (with its aliases) until they do - a failed delivery is a result, not a removal
             let d0 = ob2.disconnects.load(Ordering::SeqCst);
             let res = reg2.broadcast_notify_raw("/bc", repe::BodyFormat::RawBinary, b"x");
-            let a_kept = reg2.get(repe::PeerId(pid_a)).is_some() && !reg2.aliases_for(repe::PeerId(pid_a)).is_empty() && res.contains_key(&repe::PeerId(pid_a));
+            let a_kept = reg2.get(repe::PeerId(pid_a)).is_some() && !reg2.aliases_for(repe::PeerId(pid_a)).is_empty() && res.contains_key(&repe::PeerId(pid_a))
+                // ... and its own alias still resolves to it (a dead writer is not a disconnect: the callbacks have not run)
+                && reg2.get_by(format!("alias-{pid_a}").as_str()).map(|h| h.peer_id().0) == Some(pid_a);
             let a_kept = a_kept || ob2.disconnects.load(Ordering::SeqCst) != d0 || d0 != 0 || !still_registered;
             let sb = tokio::net::TcpStream::connect(addr).await.unwrap();
             let (mut b, _) = tokio_tungstenite::client_async(format!("ws://{addr}/ws"), sb).await.unwrap();
